@@ -162,9 +162,19 @@ def run_server(kconfig, sdkconfig, sdkconfig_rename, default_version=MAX_PROTOCO
                 "version": default_version,
             }
             error = ["All requests must have a 'version'"]
+        elif not isinstance(req["version"], int) or isinstance(req["version"], bool):
+            response = {
+                "version": default_version,
+            }
+            error = [f"Request 'version' must be an integer, got {req['version']!r}"]
         else:
             if req["version"] >= 3:
                 before_defaults = get_sym_default_value_dict(config)
+
+            for key in ("load", "save"):
+                # a wrong-typed file name is reported by handle_request(); it must not become the current path
+                if key in req and req[key] is not None and not isinstance(req[key], str):
+                    req["invalid_" + key] = req.pop(key)
 
             if "load" in req:  # load a new sdkconfig
                 if req.get("version", default_version) == 1:
@@ -248,6 +258,10 @@ def handle_request(config, req):
 
     error = []
 
+    for key in ("load", "save"):
+        if "invalid_" + key in req:
+            error += [f"'{key}' must be a file name (string) or null, got {req['invalid_' + key]!r}"]
+
     if "load" in req:
         log.print(f"Loading config from {escape(req['load'])}...", file=sys.stderr, markup=False)
         try:
@@ -256,11 +270,17 @@ def handle_request(config, req):
             error += [f"Failed to load from {req['load']}: {e}"]
 
     if "set" in req:
-        handle_set(config, error, req["set"])
+        if isinstance(req["set"], dict):
+            handle_set(config, error, req["set"])
+        else:
+            error += [f"'set' must be an object mapping config symbol names to values, got {req['set']!r}"]
 
     if "reset" in req:
         if req["version"] >= 3:
-            handle_reset(config, error, req["reset"])
+            if isinstance(req["reset"], list) and all(isinstance(item, str) for item in req["reset"]):
+                handle_reset(config, error, req["reset"])
+            else:
+                error += [f"'reset' must be a list of config symbol names and menu IDs, got {req['reset']!r}"]
         else:
             error += [f"Resetting config symbols is not supported in protocol version {req['version']}"]
 
@@ -353,7 +373,7 @@ def handle_set(config, error, to_set):
                     if not isinstance(val, int):
                         val = int(val, 16)  # input can be a decimal JSON value or a string of hex digits
                     sym.set_value(hex(val))
-                except ValueError:
+                except (ValueError, TypeError):
                     error.append(f"Hex symbol {sym.name} can accept a decimal integer or a string of hex digits, only")
             elif sym.type == kconfiglib.FLOAT:
                 if not kconfiglib.is_float(str(val)):
